@@ -47,6 +47,19 @@ def load_mutants(prop: Optional[str] = None) -> List[dict]:
                 continue
             if prop is None or prop == own:
                 out.append(dict(id=f"seeded-{meta['seed_id']}", props=[own], expect=list(rules), patch=str(mp.parent / "patch.diff"), edits=[]))
+    # behaviour-preserving refactorings kept under benign/<id>/ : no rule of any property may report a VIOLATION on them (ending undecided, exit 2, is allowed
+    # and counted); every one is run under the property being tested
+    bd = VERIF / "benign"
+    if bd.is_dir():
+        for mp in sorted(bd.glob("*/meta.json")):
+            try:
+                meta = json.loads(mp.read_text())
+            except Exception:
+                continue
+            if meta.get("status") != "confirmed" or not (mp.parent / "patch.diff").exists():
+                continue
+            props = [prop] if prop else [f"C{i:02d}" for i in range(1, 21)]
+            out.append(dict(id=f"benign-{meta['benign_id']}", props=props, expect="no-violation", patch=str(mp.parent / "patch.diff"), edits=[]))
     return out
 
 
@@ -105,8 +118,15 @@ def run_mutant(m: dict, repo: str = "/repo") -> dict:
             except SyntaxError as se:
                 return {"id": m["id"], "status": "broken-mutant", "why": f"does not parse: {se}"}
         model = load_model(tmp)
+        report.CURRENT_DRIFT.clear()
+        report.CURRENT_DRIFT.update(getattr(model, "drift", {}) or {})
+        report.CURRENT_DELETION_ONLY.clear()
+        report.CURRENT_DELETION_ONLY.update(getattr(model, "deletion_only", set()) or set())
         fired: Dict[str, List[str]] = {}
         errors: List[str] = []
+        sites: Dict[str, set] = {}
+        shape_sites: Dict[str, set] = {}
+        drifts: Dict[str, list] = {}
         for prop in m["props"]:
             for fn in report.RULES.rules.get(prop, []):
                 rr = report.RuleResult(fn.rule_id, fn.title, floor=fn.floor)
@@ -122,8 +142,15 @@ def run_mutant(m: dict, repo: str = "/repo") -> dict:
                 for f in rr.findings:
                     if f.key() not in known:
                         fired.setdefault(fn.rule_id, []).append(f"{f.func}: {f.construct}")
+                        sites.setdefault(fn.rule_id, set()).add(f.site)
+                        drifts.setdefault(f.site, []).append(f.drift)
+                for sh, st in zip(rr.shapes, rr.shape_sites):
+                    errors.append(f"{fn.rule_id}: shape {sh[:120]}")
+                    shape_sites.setdefault(fn.rule_id, set()).add(st)
         expect = m["expect"]
-        if expect == "silent":
+        if expect == "no-violation":
+            ok = not fired
+        elif expect == "silent":
             ok = not fired and not errors
         elif expect == "error":
             ok = bool(errors) or bool(fired)
@@ -133,7 +160,7 @@ def run_mutant(m: dict, repo: str = "/repo") -> dict:
             if ok and m.get("names"):
                 ok = any(m["names"] in s for r in exp for s in fired.get(r, []))
         return {"id": m["id"], "status": "ok" if ok else "FAILED", "fired": fired, "errors": errors,
-                "expect": expect}
+                "expect": expect, "sites": {k: sorted(v) for k, v in sites.items()}, "shape_sites": {k: sorted(v) for k, v in shape_sites.items()}, "drifts": drifts}
     finally:
         shutil.rmtree(tmp, ignore_errors=True)
 
@@ -155,16 +182,21 @@ def run_for_property(prop: str, seed: int = 0) -> int:
     res, dt = run_all(prop)
     failed = [r for r in res if r["status"] in ("FAILED", "broken-mutant")]
     skipped = [r for r in res if r["status"] == "skipped"]
-    killed = [r for r in res if r["status"] == "ok" and r.get("expect") != "silent"]
+    killed = [r for r in res if r["status"] == "ok" and r.get("expect") not in ("silent", "no-violation")]
     silent = [r for r in res if r["status"] == "ok" and r.get("expect") == "silent"]
+    benign = [r for r in res if r.get("expect") == "no-violation"]
+    benign_undecided = [r["id"] for r in benign if r["status"] == "ok" and r.get("errors")]
     print(f"[{prop}] self-test: {len(res)} variants in {dt:.1f}s: {len(killed)} mutants reported, "
-          f"{len(silent)} benign variants silent, {len(skipped)} skipped (anchor drifted), {len(failed)} failed")
+          f"{len(silent)} benign variants silent, {len(skipped)} skipped (anchor drifted), {len(failed)} failed; "
+          f"{len(benign)} refactorings: {len(benign) - len(benign_undecided) - sum(1 for r in benign if r['status'] != 'ok')} silent, {len(benign_undecided)} undecided (exit 2), "
+          f"{sum(1 for r in benign if r['status'] != 'ok')} falsely reported")
     # append to evidence
     evp = VERIF / "evidence" / f"{prop}.json"
     try:
         ev = json.loads(evp.read_text())
         ev["coverage"]["selftest"] = {
             "variants": len(res), "mutants_reported": len(killed), "benign_silent": len(silent),
+            "refactorings": {"run": len(benign), "undecided_exit_2": benign_undecided, "falsely_reported": [r["id"] for r in benign if r["status"] != "ok"]},
             "skipped": [f"{r['id']}: {r['why']}" for r in skipped], "failed": [r["id"] for r in failed],
             "kill_matrix": {r["id"]: sorted(r.get("fired", {})) for r in res if r["status"] != "skipped"},
         }
